@@ -156,15 +156,26 @@ def projections(draw):
     return p
 
 
+FORMAT_WEIGHT = {'uamiv': 5, 'lateral_boundary': 2}
+
+
+def _sizes(mx):
+    # length 1 stays well represented without dominating
+    return st.sampled_from([n for n in [1, 2, 2, 3, 3, 4, 5] if n <= mx])
+
+
 @st.composite
 def camxspecs(draw, formats=ALL_FORMATS, max_n=5, max_nz=5, max_steps=4,
               max_spec=4, steps_min=1, step_choices=(1, 1, 1, 1, 2, 3, 6),
               names=UAMIV_NAMES):
-    fmt = draw(st.sampled_from(list(formats)))
+    pool = []
+    for f_ in formats:
+        pool += [f_] * FORMAT_WEIGHT.get(f_, 1)
+    fmt = draw(st.sampled_from(pool))
     s = OrderedDict(fmt=fmt)
-    s['nx'] = draw(st.integers(1, max_n))
-    s['ny'] = draw(st.integers(1, max_n))
-    s['nz'] = draw(st.integers(1, max_nz))
+    s['nx'] = draw(_sizes(max_n))
+    s['ny'] = draw(_sizes(max_n))
+    s['nz'] = draw(_sizes(max_nz))
     if fmt == 'landuse':
         s['newstyle'] = draw(st.booleans())
         s['nland'] = draw(st.sampled_from([11, 26])) if s['newstyle'] else 11
@@ -178,7 +189,8 @@ def camxspecs(draw, formats=ALL_FORMATS, max_n=5, max_nz=5, max_steps=4,
         # that is one cell wide does not exist
         s['nx'] = max(s['nx'], 2)
         s['ny'] = max(s['ny'], 2)
-    s['nsteps'] = draw(st.integers(steps_min, max_steps))
+    s['nsteps'] = draw(st.sampled_from(
+        [n for n in [1, 2, 2, 3, 3, 4, 4] if steps_min <= n <= max_steps]))
     s['step_h'] = draw(st.sampled_from(list(step_choices)))
     if fmt == 'lateral_boundary':
         s['step_h'] = 1
@@ -760,7 +772,7 @@ class NonTermination(Exception):
 
 _GUARD = {'installed': False, 'yields': 0, 'nexts': 0}
 MAX_YIELDS = 10000        # files have <= 4 steps
-MAX_NEXTS = 200000        # RecordFile.next calls per case (files have a few
+MAX_NEXTS = 20000         # RecordFile.next calls per case (files have a few
 #                           hundred records; readers re-scan per variable)
 
 
@@ -836,3 +848,71 @@ def tripped():
     """True if a budget was exhausted in this case (even if the library
     swallowed the NonTermination exception)"""
     return _GUARD['yields'] > MAX_YIELDS or _GUARD['nexts'] > MAX_NEXTS
+
+
+# ------------------------------------------------- snapshot of a library file
+HDR_ATTRS = ['NAME', 'NOTE', 'ITZON', 'PLON', 'PLAT', 'TLAT1', 'TLAT2',
+             'IUTM', 'ISTAG', 'CPROJ', 'XORIG', 'YORIG', 'XCELL', 'YCELL']
+VOLATILE = ('CDATE', 'CTIME', 'WDATE', 'WTIME')
+
+
+class Snap(object):
+    def __init__(self):
+        self.dims = OrderedDict()
+        self.order = []
+        self.vars = OrderedDict()     # name -> (dims, float array copy)
+        self.tflag = None
+        self.etflag = None
+        self.attrs = OrderedDict()
+        self.varlist = None
+
+
+def norm_attr(v):
+    """comparable form of a header attribute: str stays str; numeric scalars
+    -> ('num', float value); arrays -> ('arr', list)"""
+    if isinstance(v, (str, bytes)):
+        return v.decode() if isinstance(v, bytes) else v
+    a = np.asarray(v)
+    if a.ndim == 0:
+        try:
+            x = float(a)
+        except (TypeError, ValueError):
+            return ('obj', repr(v))
+        return ('num', 'nan' if x != x else x)
+    return ('arr', a.tolist())
+
+
+def snapshot_lib(f, spec, names=None):
+    """deep copy of what a library CAMx file presents (data as arrays with
+    their own memory, so the source may be closed afterwards)"""
+    s = Snap()
+    fmt = spec['fmt']
+    for d in ('TSTEP', 'LAY', 'ROW', 'COL', 'LANDUSE', 'VAR'):
+        if d in f.dimensions:
+            s.dims[d] = len(f.dimensions[d])
+    keys = list(f.variables.keys())
+    s.order = [k for k in keys if k not in ('TFLAG', 'ETFLAG')]
+    for k in (s.order if names is None else names):
+        v = f.variables[k]
+        a = v[...]
+        if isinstance(a, np.ma.MaskedArray):
+            a = np.ma.getdata(a)
+        s.vars[k] = (tuple(getattr(v, 'dimensions', ())), np.array(a))
+    if 'TFLAG' in keys:
+        s.tflag = np.array(f.variables['TFLAG'][...])
+    if 'ETFLAG' in keys:
+        s.etflag = np.array(f.variables['ETFLAG'][...])
+    want = []
+    if fmt in ('uamiv', 'lateral_boundary'):
+        want = HDR_ATTRS
+    elif fmt == 'wind':
+        want = ['LSTAGGER']
+    elif fmt == 'cloud_rain':
+        want = ['FILEDESC']
+    for k in want:
+        if hasattr(f, k):
+            s.attrs[k] = norm_attr(getattr(f, k))
+    if hasattr(f, 'VAR-LIST'):
+        vl = getattr(f, 'VAR-LIST')
+        s.varlist = [vl[i:i + 16].strip() for i in range(0, len(vl), 16)]
+    return s
